@@ -100,6 +100,14 @@ check("C15", "other",
       "test of the document as skipped and the Cram executor's twin logic are not claimed.",
       E2_NOTE + " Environment stubs as listed in the evidence.", E2_TECH, "E2", "DESIGN.md §3 C15")
 
+check("C11", "other",
+      "Escaper ∘ decoder = identity and printable output, decided on the composition of the MIR of the real escaper "
+      "(escaped_expectation → escaped_printable_*, byte_to_ascii) with the MIR of the real decoder (EscapedRule::make → "
+      "unescape_tabs, resolve_escape_sequences_to_bytes), for every byte line of <= 2/3 bytes (all byte values, valid and invalid "
+      "UTF-8, with/without final newline) in both modes; unmarked lines are the line itself. Longer lines and 'unassigned' code "
+      "points (the implementation's tables have none) are outside.",
+      E2_NOTE, E2_TECH, "E2", "DESIGN.md §3 C11")
+
 NA_LIST = [
     ("C07", "Cram parser: every clause is about string contents inside one regex-calling function; out of reach of Kani (heap/regex) and of control-flow-only MIR execution."),
     ("C12", "Shell-state carry-over is implemented by a bash script; no encoding of bash semantics is available here."),
